@@ -72,16 +72,16 @@ def run(ctx):
         return
 
     q = not ctx.thorough
-    mcs = ["Q", "QSrv"] if q else ["T0", "T32", "T23", "TSrv", "TLite"]
+    mcs = ["Q", "QSrv"] if q else ["T0", "T32", "TSrv", "TLite"]
     gens = [("GenQ", None, None)] if q else \
-           [("GenQ", None, None), ("GenT", None, None), ("GenSrv5", None, None), ("GenLite3", None, None)]
+           [("GenQ", None, None), ("GenT", None, None), ("GenSrv5", None, None)]
     gens.append(("SimSrv", ctx.pick(400, 3000), 14))
     if not q:
         gens.append(("Sim", 2000, 14))
 
     def mc(name):
         return lambda: ctx.tlc_must_hold("SSHSession_MC", cfg="SSHSession_%s.cfg" % name, timeout=2400,
-                                         workers=ctx.pick(4, 16), coverage=(name == "T0"))
+                                         workers=ctx.pick(4, 12), coverage=(name == "T0"))
 
     def gen(name, sim, depth):
         cfg_text = None
@@ -102,7 +102,7 @@ def run(ctx):
     jobs = [("long", long_sessions)] + [("gen:" + g[0], gen(*g)) for g in gens]
     if q:
         jobs += [("mc:" + m, mc(m)) for m in mcs]
-    res = _par(ctx, jobs)
+    res = {}
 
     def big_mcs():                  # thorough: the big model-checking runs one after the other, next to the replay
         for m in mcs:
@@ -110,6 +110,22 @@ def run(ctx):
         # the code as it is with a small request buffer: documents the design-level counterexample to S9; never a verdict
         r = ctx.tlc("SSHSession_MC", cfg="SSHSession_Stall.cfg", timeout=900, expect_violation=True, count=False)
         ctx.notes.append("SSHSession_Stall.cfg (ReqBuf=2): TLC reports %s" % (("violation of " + str(r.violated)) if r.violated else "no violation"))
+
+    mc_thread, mc_err = None, []
+    if not q:
+        def _mc_chain():
+            try:
+                big_mcs()
+            except Exception as e:      # noqa
+                mc_err.append(e)
+        mc_thread = threading.Thread(target=_mc_chain)
+        mc_thread.start()
+    try:
+        res.update(_par(ctx, jobs))
+    except Exception:
+        if mc_thread:
+            mc_thread.join()
+        raise
 
     def log_mcs():
         for m in mcs:
@@ -157,7 +173,13 @@ def run(ctx):
         for i in range(0, len(traces), 100):
             ctx.validate_traces("SSHSession_Trace", traces[i:i + 100], timeout=900, max_rejects=3)
 
-    res2 = _par(ctx, [("replay", replay), ("validate", validate)] + ([] if q else [("mcs", big_mcs)]))
+    try:
+        res2 = _par(ctx, [("replay", replay), ("validate", validate)])
+    finally:
+        if mc_thread:
+            mc_thread.join()
+    if mc_err:
+        raise mc_err[0]
     log_mcs()
     ctx.absorb(res2["replay"][0])
     ctx.absorb(res2["replay"][1])
